@@ -41,7 +41,7 @@ Q05 = [("handles", 24000), ("droprace", 2000), ("registry", 8000), ("lifecycle",
 Q12 = [("bigburst", 6), ("backpressure", 30000), ("mailbox", 10000), ("lifecycle", 4000), ("mix", 10000)]
 Q17 = [("owning", 30000), ("lifecycle", 10000), ("mailbox", 4000), ("timeout", 8000), ("restart", 8000), ("mix", 10000), ("owning+faults", 400), ("joinrace", 1000)]
 
-Q07 = [("restart", 30000), ("lifecycle", 12000), ("kinds", 4000), ("mix", 10000)]
+Q07 = [("restart", 30000), ("svcrestart", 3000), ("lifecycle", 12000), ("kinds", 4000), ("mix", 10000)]
 Q10 = [("timers", 30000), ("restart", 6000), ("handles", 6000), ("kinds", 6000), ("lifecycle", 4000), ("timeout", 10000), ("backpressure", 6000), ("mix", 10000)]
 Q11 = [("timeout", 40000), ("mailbox", 8000), ("lifecycle", 8000), ("backpressure", 4000), ("stream", 8000), ("timeout0", 3000), ("mix", 10000)]
 Q13 = [("stream", 30000), ("lifecycle", 10000), ("owning", 6000), ("mix", 10000)]
